@@ -16,8 +16,8 @@ import sys
 import time
 
 ROOT = os.path.dirname(os.path.dirname(os.path.abspath(__file__)))
-REPO = "/repo"
-ENV = dict(os.environ, GOFLAGS="-mod=mod", GOPROXY="off", GOSUMDB="off", GOTOOLCHAIN="local", VERIF_NO_EVIDENCE="1")
+REPO = os.environ.get("SEED_REPO", "/repo")  # SEED_REPO: run against a scratch worktree instead (development)
+ENV = dict(os.environ, GOFLAGS="-mod=mod", GOPROXY="off", GOSUMDB="off", GOTOOLCHAIN="local", VERIF_NO_EVIDENCE="1", VERIF_REPO=REPO)
 
 
 def sh(cmd, cwd=None, timeout=900):
